@@ -119,7 +119,7 @@ def _call(ex, op, idx, faults):
         return {}
     if op["op"] == "point":
         return {"P": ex.point(xf(op["t"]), faults, idx)}
-    res = ex.raw(xf(op["ta"]), xf(op["tb"]), op["U"], op["A"], faults, idx)
+    res = ex.raw(xf(op["ta"]), xf(op["tb"]), op["U"], op["A"], faults, idx, op.get("targ"))
     for _ in range(op.get("rep", 0)):
         ex.raw(xf(op["ta"]), xf(op["tb"]), op["U"], op["A"], None, idx)
     return res
